@@ -1,9 +1,73 @@
 import Driver.Common
 import Canopy.Model.Bytes
 import Canopy.Gen.Keys
-/-! Driver for C19/M-key: stateless, one answer per line. -/
+import Canopy.Model.SignBytes
+/-! Driver for C19: (a) M-key, (b) sign bytes of certificates and consensus messages, (c) the modelled
+decoders. Stateless, one answer per line. -/
 namespace Driver.C19
-open Canopy Driver
+open Canopy Driver Canopy.Proto Canopy.SignBytes
+
+/-! text encoding of certificates / messages (written by harness/c19/signbytes.go) -/
+
+def parseView (s : String) : Option (Option ViewC) :=
+  if s == "-" then some none
+  else match (s.splitOn ",").mapM String.toNat? with
+    | some [a, b, c, d, e, f] => some (some ⟨a, b, c, d, e, f⟩)
+    | _ => none
+
+def parseOptBytes (s : String) : Option (Option Bytes) :=
+  if s == "nil" then some none else (ofHex s).map some
+
+def parseQc (s : String) : Option (Option QcC) :=
+  if s == "nil" then some none
+  else match s.splitOn "|" with
+    | [v, r, rh, b, bh, pk, sg] => do
+      let v ← parseView v
+      let r ← parseOptBytes r
+      let rh ← ofHex rh
+      let b ← ofHex b
+      let bh ← ofHex bh
+      let pk ← ofHex pk
+      let sg ← parseOptBytes sg
+      pure (some ⟨v, r, rh, b, bh, pk, sg⟩)
+    | _ => none
+
+def parseSig (s : String) : Option (Option SigC) :=
+  if s == "nil" then some none
+  else match s.splitOn ":" with
+    | [a, b] => do
+      let a ← ofHex a
+      let b ← ofHex b
+      pure (some ⟨a, b⟩)
+    | _ => none
+
+def parseDse (s : String) : Option DseC :=
+  match s.splitOn "~" with
+  | [a, b] => do
+    let a ← parseQc a
+    let b ← parseQc b
+    pure ⟨a, b⟩
+  | _ => none
+
+def parseDseList (s : String) : Option (List DseC) :=
+  if s == "none" then some [] else (s.splitOn ";").mapM parseDse
+
+def parseMsg (ws : List String) : Option MsgC :=
+  match ws with
+  | [h, v, q, hq, e, d, sg, t, r] => do
+    let h ← parseView h
+    let v ← parseSig v
+    let q ← parseQc q
+    let hq ← parseQc hq
+    let e ← parseDseList e
+    let d ← parseOptBytes d
+    let sg ← parseSig sg
+    let t ← t.toNat?
+    let r ← r.toNat?
+    pure ⟨h, v, q, hq, e, d, sg, t, r⟩
+  | _ => none
+
+def showBytes (b : Bytes) : String := "bytes " ++ hexOrDash b
 
 def showSegs (segs : List Bytes) : String :=
   "segs " ++ toString segs.length ++ String.join (segs.map fun s => " " ++ hexOrDash s)
@@ -36,6 +100,36 @@ def step (line : String) : String :=
     | some bz => match decodeLenPrefixed bz with
       | some segs => showSegs segs
       | none => "panic"
+    | none => "bad-op"
+  | ["view", v] =>
+    match parseView v with
+    | some (some v) => showBytes (canonView v)
+    | _ => "bad-op"
+  | ["qcsb", q] =>
+    match parseQc q with
+    | some (some q) => showBytes (qcSignBytes q)
+    | _ => "bad-op"
+  | ["qc", q] =>
+    match parseQc q with
+    | some (some q) => showBytes (canonQc q)
+    | _ => "bad-op"
+  | "msgsb" :: ws =>
+    match parseMsg ws with
+    | some m => showBytes (msgSignBytes m)
+    | none => "bad-op"
+  | ["dectx", raw] =>
+    match ofHex raw with
+    | none => "bad-op"
+    | some b =>
+      match decodeTx b with
+      | some t => "tx " ++ hexOrDash (canon t) ++ " sb " ++ hexOrDash (signBytes t)
+      | none =>
+        match (if protoMaxMessageBytes < b.length || !preflight b then none else decodeLoose b) with
+        | some (_, true) => "err unknown-fields"
+        | _ => "err"
+  | ["preflight", raw] =>
+    match ofHex raw with
+    | some b => if preflight b then "ok" else "err"
     | none => "bad-op"
   | _ => "bad-op"
 
